@@ -240,6 +240,7 @@ def generate(bdir):
         raise TieBroken("fn:assign_svalue", "assign_svalue is no longer `free_svalue(dest); assign_svalue_no_free(dest, v);` in this order")
     _programs(out, info)
     _array_stats(out, info)
+    _func_ref_sites(out, info)
     return "\n".join(out) + "\n", info
 
 
@@ -367,3 +368,29 @@ def _array_stats(out, info):
     info["arrBytesOf"] = {"c": e, "lean": lean}
     out.append("/-- bytes accounted for an array of n elements.  C (allocate_array, allocate_empty_array, dealloc_array, "
                "free_empty_array): `%s` -/\ndef arrBytesOf (n : Nat) : Int := %s" % (e, lean))
+
+
+def _func_ref_sites(out, info):
+    """func_ref: which program each increment / decrement site addresses (make_functional_funp, dealloc_funp, f_bind)"""
+    out.append("\n/-! ### func_ref of programs: the program expression of every increment / decrement site, regenerated -/")
+    mk = _fn("lib/lpc/functional.c", "make_functional_funp", "fn:make_functional_funp")
+    inc = re.findall(r"([\w>.\-]+)->func_ref\+\+", mk)
+    sto = re.findall(r"funptr->f\.functional\.prog = ([\w>.\-]+) ?;", mk)
+    if len(inc) != 1 or len(sto) != 1:
+        raise TieBroken("fn:make_functional_funp", "make_functional_funp no longer has exactly one `<prog>->func_ref++` and one "
+                        "`funptr->f.functional.prog = <prog>;`: %s / %s" % (inc, sto))
+    de = _fn("lib/lpc/operator.c", "dealloc_funp", "fn:dealloc_funp")
+    dec = re.findall(r"([\w>.\-]+)->func_ref--", de)
+    if len(dec) != 1:
+        raise TieBroken("fn:dealloc_funp", "dealloc_funp no longer has exactly one `<prog>->func_ref--`: %s" % dec)
+    bi = _fn("lib/lpc/operator.c", "f_bind", "fn:f_bind")
+    binc = re.findall(r"([\w>.\-]+)->func_ref\+\+", bi)
+    bcopy = re.search(r"new_fp->f\.functional = old_fp->f\.functional ?;", bi)
+    if len(binc) != 1 or not bcopy:
+        raise TieBroken("fn:f_bind", "f_bind no longer copies the functional part and counts the copy once on `<prog>->func_ref++`: %s" % binc)
+    strip = lambda e: re.sub(r"^(funptr|new_fp)->", "", e)
+    info["funcRef"] = {"inc": inc[0], "stored": sto[0], "dec": dec[0], "bind": binc[0]}
+    out.append("/-- make_functional_funp: the program whose func_ref is incremented.  C: `%s->func_ref++` -/\ndef funcRefIncProg : String := \"%s\"" % (inc[0], inc[0]))
+    out.append("/-- make_functional_funp: the program stored in the pointer.  C: `funptr->f.functional.prog = %s;` -/\ndef funcRefStoredProg : String := \"%s\"" % (sto[0], sto[0]))
+    out.append("/-- dealloc_funp: the program whose func_ref is decremented, relative to the pointer.  C: `%s->func_ref--` -/\ndef funcRefDecProg : String := \"%s\"" % (dec[0], strip(dec[0])))
+    out.append("/-- f_bind: the program counted for the copy, relative to the new pointer.  C: `%s->func_ref++` -/\ndef funcRefBindProg : String := \"%s\"" % (binc[0], strip(binc[0])))
